@@ -102,10 +102,12 @@ theorem unfl_false_split (sid : Nat) (a b : List Ev) (e : Ev) (h : unfl sid (a +
         exact ⟨y, List.mem_cons_of_mem _ hy, hyf⟩
 
 structure CI (fz : Bool) (s : BSt) : Prop where
+  cfgF : s.cfg.flushInvalidatedLoggers = true
   act : ∀ sid, unfl sid s.log = true → ∃ i, (s.lgOf i).erased = false ∧ sid ∈ (s.lgOf i).sinks
   fzc : fz = true → ∀ sid, unfl sid s.log = false
   fl1 : ∀ fn ∈ s.flagLog, fn.2 ≤ s.log.length ∧ ∀ sid, unfl sid (s.log.drop (s.log.length - fn.2)) = false
   fl2 : ∀ fn ∈ s.flagLog, fn.1 ∈ s.flags
+  fl3 : ∀ f ∈ s.flags, ∃ n, (f, n) ∈ s.flagLog
   wr : ∀ fn ∈ s.flagLog, ∀ i pre st more, (s.th i).popped = pre ++ st :: more → st.kind = .flush fn.1 →
         ∀ r ∈ pre, PA.isOrd r = true → ∀ sid, PA.wcount (s.log.take (s.log.length - fn.2)) sid r.id = 0
 
@@ -113,15 +115,15 @@ theorem CI.weaken {fz : Bool} {s : BSt} (h : CI fz s) : CI false s :=
   { h with fzc := fun hf => by cases hf }
 
 /-- what happens to the positional clauses when the log grows by `new` and nothing else they mention changes -/
-theorem CI.grow {fz fz' : Bool} {s s' : BSt} (h : CI fz s) (new : List Ev) (hlog : s'.log = new ++ s.log)
-    (hfl : s'.flagLog = s.flagLog) (hflags : ∀ f ∈ s.flags, f ∈ s'.flags)
+theorem CI.grow {fz fz' : Bool} {s s' : BSt} (h : CI fz s) (hcfg : s'.cfg = s.cfg) (new : List Ev) (hlog : s'.log = new ++ s.log)
+    (hfl : s'.flagLog = s.flagLog) (hflags : s'.flags = s.flags)
     (hpop : ∀ i, (s'.th i).popped = (s.th i).popped)
     (hact : ∀ sid, unfl sid s'.log = true → ∃ i, (s'.lgOf i).erased = false ∧ sid ∈ (s'.lgOf i).sinks)
     (hfz : fz' = true → ∀ sid, unfl sid s'.log = false)
     (hw : ∀ fn ∈ s.flagLog, ∀ i pre st more, (s.th i).popped = pre ++ st :: more → st.kind = .flush fn.1 →
         ∀ r ∈ pre, PA.isOrd r = true → ∀ sid, PA.wcount new sid r.id = 0) : CI fz' s' := by
   have hlen : s'.log.length = new.length + s.log.length := by rw [hlog, List.length_append]
-  refine ⟨hact, hfz, ?_, ?_, ?_⟩
+  refine ⟨by rw [hcfg]; exact h.cfgF, hact, hfz, ?_, ?_, ?_, ?_⟩
   · intro fn hfn
     rw [hfl] at hfn
     obtain ⟨h1, h2⟩ := h.fl1 fn hfn
@@ -130,7 +132,8 @@ theorem CI.grow {fz fz' : Bool} {s s' : BSt} (h : CI fz s) (new : List Ev) (hlog
     have e1 : List.drop (new.length + (s.log.length - fn.2)) new = [] := List.drop_of_length_le (by omega)
     have e2 : new.length + (s.log.length - fn.2) - new.length = s.log.length - fn.2 := by omega
     rw [this, hlog, List.drop_append, e1, e2, List.nil_append]; exact h2 sid
-  · intro fn hfn; rw [hfl] at hfn; exact hflags _ (h.fl2 fn hfn)
+  · intro fn hfn; rw [hfl] at hfn; rw [hflags]; exact h.fl2 fn hfn
+  · intro f hf; rw [hflags] at hf; rw [hfl]; exact h.fl3 f hf
   · intro fn hfn i pre st more hp hk r hr ho sid
     rw [hfl] at hfn
     rw [hpop] at hp
@@ -143,15 +146,15 @@ theorem CI.grow {fz fz' : Bool} {s s' : BSt} (h : CI fz s) (new : List Ev) (hlog
 
 /-- a step that emits only neutral events, keeps the sink lists of the loggers that are not erased (erasing none),
     the flag log and the pop histories -/
-theorem CI.plain {fz : Bool} {s s' : BSt} (h : CI fz s) (new : List Ev) (hlog : s'.log = new ++ s.log)
+theorem CI.plain {fz : Bool} {s s' : BSt} (h : CI fz s) (hcfg : s'.cfg = s.cfg) (new : List Ev) (hlog : s'.log = new ++ s.log)
     (hn : ∀ e ∈ new, neutral e = true)
     (hlg : ∀ i sid, (s.lgOf i).erased = false → sid ∈ (s.lgOf i).sinks →
       (s'.lgOf i).erased = false ∧ sid ∈ (s'.lgOf i).sinks)
-    (hfl : s'.flagLog = s.flagLog) (hflags : ∀ f ∈ s.flags, f ∈ s'.flags)
+    (hfl : s'.flagLog = s.flagLog) (hflags : s'.flags = s.flags)
     (hpop : ∀ i, (s'.th i).popped = (s.th i).popped) : CI fz s' := by
   have hun : ∀ sid, unfl sid s'.log = unfl sid s.log := fun sid => by
     rw [hlog]; exact unfl_append_plain sid new _ (fun e he => ⟨neutral_isWr (hn e he) sid, neutral_isFl (hn e he) sid⟩)
-  refine h.grow new hlog hfl hflags hpop ?_ ?_ ?_
+  refine h.grow hcfg new hlog hfl hflags hpop ?_ ?_ ?_
   · intro sid hs
     rw [hun] at hs
     obtain ⟨i, h1, h2⟩ := h.act sid hs
@@ -163,31 +166,32 @@ theorem CI.plain {fz : Bool} {s s' : BSt} (h : CI fz s) (new : List Ev) (hlog : 
     intro e he; simp [neutral_ordWrite (hn e he)]
 
 /-- nothing the invariant mentions changes -/
-theorem CI.same {fz : Bool} {s s' : BSt} (h : CI fz s) (hlog : s'.log = s.log) (hlgs : s'.lgs = s.lgs)
+theorem CI.same {fz : Bool} {s s' : BSt} (h : CI fz s) (hcfg : s'.cfg = s.cfg) (hlog : s'.log = s.log) (hlgs : s'.lgs = s.lgs)
     (hfl : s'.flagLog = s.flagLog) (hflags : s'.flags = s.flags) (hths : s'.ths = s.ths) : CI fz s' :=
-  h.plain [] (by simp [hlog]) (fun _ h => by cases h)
+  h.plain hcfg [] (by simp [hlog]) (fun _ h => by cases h)
     (fun i sid he hs => by
       have : s'.lgOf i = s.lgOf i := by simp only [BSt.lgOf, hlgs]
-      rw [this]; exact ⟨he, hs⟩) hfl (fun f hf => by rw [hflags]; exact hf)
+      rw [this]; exact ⟨he, hs⟩) hfl hflags
     (fun i => by simp only [BSt.th, hths])
 
 /-! ### frontend operations -/
 
 /-- what a frontend operation may do to the things `CI` mentions -/
 structure FRel (s s' : BSt) : Prop where
+  cfg : s'.cfg = s.cfg
   log : ∃ new, s'.log = new ++ s.log ∧ ∀ e ∈ new, neutral e = true
   lg : ∀ i sid, (s.lgOf i).erased = false → sid ∈ (s.lgOf i).sinks → (s'.lgOf i).erased = false ∧ sid ∈ (s'.lgOf i).sinks
   fl : s'.flagLog = s.flagLog
-  flags : ∀ f ∈ s.flags, f ∈ s'.flags
+  flags : s'.flags = s.flags
   pop : ∀ i, (s'.th i).popped = (s.th i).popped
 
 theorem FRel.refl (s : BSt) : FRel s s :=
-  ⟨⟨[], rfl, fun _ h => by cases h⟩, fun _ _ h1 h2 => ⟨h1, h2⟩, rfl, fun _ h => h, fun _ => rfl⟩
+  ⟨rfl, ⟨[], rfl, fun _ h => by cases h⟩, fun _ _ h1 h2 => ⟨h1, h2⟩, rfl, rfl, fun _ => rfl⟩
 
 theorem FRel.trans {a b c : BSt} (h1 : FRel a b) (h2 : FRel b c) : FRel a c := by
   obtain ⟨n1, e1, m1⟩ := h1.log
   obtain ⟨n2, e2, m2⟩ := h2.log
-  refine ⟨⟨n2 ++ n1, by rw [e2, e1, List.append_assoc], ?_⟩, ?_, h2.fl.trans h1.fl, fun f hf => h2.flags f (h1.flags f hf),
+  refine ⟨h2.cfg.trans h1.cfg, ⟨n2 ++ n1, by rw [e2, e1, List.append_assoc], ?_⟩, ?_, h2.fl.trans h1.fl, h2.flags.trans h1.flags,
     fun i => (h2.pop i).trans (h1.pop i)⟩
   · intro e he
     rcases List.mem_append.mp he with h | h
@@ -199,24 +203,24 @@ theorem FRel.trans {a b c : BSt} (h1 : FRel a b) (h2 : FRel b c) : FRel a c := b
 
 theorem CI.frel {fz : Bool} {s s' : BSt} (h : CI fz s) (r : FRel s s') : CI fz s' := by
   obtain ⟨new, e, m⟩ := r.log
-  exact h.plain new e m r.lg r.fl r.flags r.pop
+  exact h.plain r.cfg new e m r.lg r.fl r.flags r.pop
 
 /-- changes of fields `CI` does not mention, stated through equalities -/
-theorem FRel.ofEq {s s' : BSt} (h1 : s'.log = s.log) (h2 : s'.lgs = s.lgs) (h3 : s'.flagLog = s.flagLog)
+theorem FRel.ofEq {s s' : BSt} (h0 : s'.cfg = s.cfg) (h1 : s'.log = s.log) (h2 : s'.lgs = s.lgs) (h3 : s'.flagLog = s.flagLog)
     (h4 : s'.flags = s.flags) (h5 : s'.ths = s.ths) : FRel s s' :=
-  ⟨⟨[], by simp [h1], fun _ h => by cases h⟩, fun i sid he hs => by
+  ⟨h0, ⟨[], by simp [h1], fun _ h => by cases h⟩, fun i sid he hs => by
       have : s'.lgOf i = s.lgOf i := by simp only [BSt.lgOf, h2]
-      rw [this]; exact ⟨he, hs⟩, h3, fun f hf => by rw [h4]; exact hf, fun i => by simp only [BSt.th, h5]⟩
+      rw [this]; exact ⟨he, hs⟩, h3, h4, fun i => by simp only [BSt.th, h5]⟩
 
 theorem FRel.setTh (s : BSt) (i : Nat) (f : Th → Th) (hf : ∀ t, (f t).popped = t.popped) : FRel s (s.setTh i f) :=
-  ⟨⟨[], rfl, fun _ h => by cases h⟩, fun _ _ h1 h2 => ⟨h1, h2⟩, rfl, fun _ h => h, fun j => by
+  ⟨rfl, ⟨[], rfl, fun _ h => by cases h⟩, fun _ _ h1 h2 => ⟨h1, h2⟩, rfl, rfl, fun j => by
     rcases th_setTh_cases s i j f with h | ⟨rfl, _, h⟩
     · rw [h]
     · rw [h, hf]⟩
 
 theorem FRel.setLg (s : BSt) (i : Nat) (f : Lg → Lg) (hf : ∀ l, (f l).erased = l.erased ∧ (f l).sinks = l.sinks) :
     FRel s (s.setLg i f) := by
-  refine ⟨⟨[], rfl, fun _ h => by cases h⟩, ?_, rfl, fun _ h => h, fun _ => rfl⟩
+  refine ⟨rfl, ⟨[], rfl, fun _ h => by cases h⟩, ?_, rfl, rfl, fun _ => rfl⟩
   intro j sid he hs
   have key : (s.setLg i f).lgOf j = s.lgOf j ∨ (s.setLg i f).lgOf j = f (s.lgOf j) := by
     simp only [BSt.lgOf, BSt.setLg, getD_updAt]
@@ -228,16 +232,16 @@ theorem FRel.setLg (s : BSt) (i : Nat) (f : Lg → Lg) (hf : ∀ l, (f l).erased
   · rw [k, (hf _).1, (hf _).2]; exact ⟨he, hs⟩
 
 theorem FRel.emit (s : BSt) (e : Ev) (he : neutral e = true) : FRel s (s.emit e) :=
-  ⟨⟨[e], rfl, fun x hx => by rw [List.mem_singleton.mp hx]; exact he⟩, fun _ _ h1 h2 => ⟨h1, h2⟩, rfl, fun _ h => h, fun _ => rfl⟩
+  ⟨rfl, ⟨[e], rfl, fun x hx => by rw [List.mem_singleton.mp hx]; exact he⟩, fun _ _ h1 h2 => ⟨h1, h2⟩, rfl, rfl, fun _ => rfl⟩
 
-theorem frel_setActor (s : BSt) (a : Nat) (g : Actor → Actor) : FRel s (s.setActor a g) := FRel.ofEq rfl rfl rfl rfl rfl
+theorem frel_setActor (s : BSt) (a : Nat) (g : Actor → Actor) : FRel s (s.setActor a g) := FRel.ofEq rfl rfl rfl rfl rfl rfl
 
 theorem frel_ensureCtx (s : BSt) (a : Nat) : FRel s (Backend.ensureCtx s a).1 := by
   unfold Backend.ensureCtx
   split
   · exact FRel.refl _
   · simp only
-    refine ⟨⟨[], rfl, fun _ h => by cases h⟩, fun _ _ h1 h2 => ⟨h1, h2⟩, rfl, fun _ h => h, fun j => ?_⟩
+    refine ⟨rfl, ⟨[], rfl, fun _ h => by cases h⟩, fun _ _ h1 h2 => ⟨h1, h2⟩, rfl, rfl, fun j => ?_⟩
     have : ((({ s with ths := s.ths ++ [mkTh s.cfg a], registry := s.registry ++ [s.ths.length], newFlag := true } : BSt).setActor a
         (fun x => { x with ctx := some s.ths.length })).th j) = if j = s.ths.length then mkTh s.cfg a else s.th j :=
       th_append s _ j
@@ -256,12 +260,12 @@ theorem frel_tryEnq (s : BSt) (ci : Nat) (st : Stmt) : FRel s (Backend.tryEnq s 
 theorem frel_afterEnq (s : BSt) (a : Nat) (st : Stmt) (cont : Nat) : FRel s (Backend.afterEnq s a st cont).1 := by
   unfold Backend.afterEnq
   split
-  · exact FRel.ofEq rfl rfl rfl rfl rfl
+  · exact FRel.ofEq rfl rfl rfl rfl rfl rfl
   · exact FRel.setLg s _ _ (fun _ => ⟨rfl, rfl⟩)
   · exact FRel.refl _
   · dsimp only
     refine FRel.trans (FRel.setLg s st.lg (fun l => { l with valid := false }) (fun _ => ⟨rfl, rfl⟩)) ?_
-    exact FRel.ofEq rfl rfl rfl rfl rfl
+    exact FRel.ofEq rfl rfl rfl rfl rfl rfl
   · exact FRel.refl _
 
 theorem frel_enqFlow (s : BSt) (a : Nat) (st : Stmt) (cont : Nat) (first initial : Bool) :
@@ -303,7 +307,7 @@ theorem frel_frontCall (s : BSt) (a lgi : Nat) (kind : Kind) (lvl len cont : Nat
   unfold Backend.frontCall
   simp only
   split
-  · exact FRel.ofEq rfl rfl rfl rfl rfl
+  · exact FRel.ofEq rfl rfl rfl rfl rfl rfl
   · exact frel_enqFlow _ _ _ _ _ _
 
 theorem frel_resume (s : BSt) (a : Nat) : FRel s (Backend.resume s a).1 := by
@@ -312,7 +316,7 @@ theorem frel_resume (s : BSt) (a : Nat) : FRel s (Backend.resume s a).1 := by
   · exact frel_enqFlow _ _ _ _ _ _
   · split <;> exact frel_enqFlow _ _ _ _ _ _
   · split
-    · exact FRel.ofEq rfl rfl rfl rfl rfl
+    · exact FRel.ofEq rfl rfl rfl rfl rfl rfl
     · exact FRel.refl _
   · exact FRel.refl _
 
@@ -320,7 +324,7 @@ theorem frel_withLogger (s : BSt) (a g : Nat) (k : Nat → BSt × String) (hk : 
     FRel s (Backend.withLogger s a g k).1 := by
   unfold Backend.withLogger
   split
-  · unfold noteCall; exact (hk _).trans (FRel.ofEq rfl rfl rfl rfl rfl)
+  · unfold noteCall; exact (hk _).trans (FRel.ofEq rfl rfl rfl rfl rfl rfl)
   · exact FRel.refl _
 
 theorem frel_reapSinks (s : BSt) (l : List Nat) : FRel s (reapSinks s l) := by
@@ -331,7 +335,7 @@ theorem frel_reapSinks (s : BSt) (l : List Nat) : FRel s (reapSinks s l) := by
     rw [List.foldl_cons]
     refine FRel.trans ?_ (ih _)
     split
-    · refine FRel.trans (b := s.setSink x (fun k => { k with alive := false })) (FRel.ofEq rfl rfl rfl rfl rfl) ?_
+    · refine FRel.trans (b := s.setSink x (fun k => { k with alive := false })) (FRel.ofEq rfl rfl rfl rfl rfl rfl) ?_
       exact FRel.emit _ _ rfl
     · exact FRel.refl _
 
@@ -341,8 +345,8 @@ theorem lgOf_append_lt (s : BSt) (x : Lg) (i : Nat) (hi : i < s.lgs.length) :
 
 theorem frel_applyFront (s : BSt) (f : FOp) : FRel s (Backend.applyFront s f).1 := by
   cases f with
-  | tick dt => exact FRel.ofEq rfl rfl rfl rfl rfl
-  | tstart a => simp only [Backend.applyFront]; split <;> exact FRel.ofEq rfl rfl rfl rfl rfl
+  | tick dt => exact FRel.ofEq rfl rfl rfl rfl rfl rfl
+  | tstart a => simp only [Backend.applyFront]; split <;> exact FRel.ofEq rfl rfl rfl rfl rfl rfl
   | texit a =>
     simp only [Backend.applyFront]
     split
@@ -352,8 +356,8 @@ theorem frel_applyFront (s : BSt) (f : FOp) : FRel s (Backend.applyFront s f).1 
         have h1 : FRel s (s.setActor a (fun x => { x with alive := false })) := frel_setActor _ _ _
         have h2 := h1.trans (FRel.setTh (s.setActor a (fun x => { x with alive := false })) i
           (fun t => { t with valid := false }) (fun _ => rfl))
-        exact h2.trans (FRel.ofEq rfl rfl rfl rfl rfl)
-      · exact FRel.ofEq rfl rfl rfl rfl rfl
+        exact h2.trans (FRel.ofEq rfl rfl rfl rfl rfl rfl)
+      · exact FRel.ofEq rfl rfl rfl rfl rfl rfl
   | resume a =>
     simp only [Backend.applyFront]
     have := frel_resume s a
@@ -361,26 +365,26 @@ theorem frel_applyFront (s : BSt) (f : FOp) : FRel s (Backend.applyFront s f).1 
     · exact this
     · split
       · exact this
-      · exact this.trans (FRel.ofEq rfl rfl rfl rfl rfl)
-  | armStall a => simp only [Backend.applyFront]; split <;> exact FRel.ofEq rfl rfl rfl rfl rfl
+      · exact this.trans (FRel.ofEq rfl rfl rfl rfl rfl rfl)
+  | armStall a => simp only [Backend.applyFront]; split <;> exact FRel.ofEq rfl rfl rfl rfl rfl rfl
   | log a g lvl len dyn =>
     simp only [Backend.applyFront]
     refine frel_withLogger s a g _ (fun lgi => ?_)
     split
-    · exact (FRel.ofEq (s := s) (s' := { s with nextId := s.nextId + 1 }) rfl rfl rfl rfl rfl).trans (frel_frontCall _ _ _ _ _ _ _ _ _ _)
-    · exact FRel.ofEq rfl rfl rfl rfl rfl
+    · exact (FRel.ofEq (s := s) (s' := { s with nextId := s.nextId + 1 }) rfl rfl rfl rfl rfl rfl).trans (frel_frontCall _ _ _ _ _ _ _ _ _ _)
+    · exact FRel.ofEq rfl rfl rfl rfl rfl rfl
   | logNamed a g len =>
     simp only [Backend.applyFront]
     refine frel_withLogger s a g _ (fun lgi => ?_)
     split
-    · exact (FRel.ofEq (s := s) (s' := { s with nextId := s.nextId + 1 }) rfl rfl rfl rfl rfl).trans (frel_frontCall _ _ _ _ _ _ _ _ _ _)
-    · exact FRel.ofEq rfl rfl rfl rfl rfl
+    · exact (FRel.ofEq (s := s) (s' := { s with nextId := s.nextId + 1 }) rfl rfl rfl rfl rfl rfl).trans (frel_frontCall _ _ _ _ _ _ _ _ _ _)
+    · exact FRel.ofEq rfl rfl rfl rfl rfl rfl
   | logBt a g len =>
     simp only [Backend.applyFront]
     refine frel_withLogger s a g _ (fun lgi => ?_)
     split
-    · exact (FRel.ofEq (s := s) (s' := { s with nextId := s.nextId + 1 }) rfl rfl rfl rfl rfl).trans (frel_frontCall _ _ _ _ _ _ _ _ _ _)
-    · exact FRel.ofEq rfl rfl rfl rfl rfl
+    · exact (FRel.ofEq (s := s) (s' := { s with nextId := s.nextId + 1 }) rfl rfl rfl rfl rfl rfl).trans (frel_frontCall _ _ _ _ _ _ _ _ _ _)
+    · exact FRel.ofEq rfl rfl rfl rfl rfl rfl
   | initBt a g cap fl' =>
     simp only [Backend.applyFront]
     exact frel_withLogger s a g _ (fun lgi => frel_frontCall _ _ _ _ _ _ _ _ _ _)
@@ -390,13 +394,13 @@ theorem frel_applyFront (s : BSt) (f : FOp) : FRel s (Backend.applyFront s f).1 
   | flush a g =>
     simp only [Backend.applyFront]
     exact frel_withLogger s a g _ (fun lgi =>
-      (FRel.ofEq (s := s) (s' := { s with nextFlag := s.nextFlag + 1 }) rfl rfl rfl rfl rfl).trans (frel_frontCall _ _ _ _ _ _ _ _ _ _))
+      (FRel.ofEq (s := s) (s' := { s with nextFlag := s.nextFlag + 1 }) rfl rfl rfl rfl rfl rfl).trans (frel_frontCall _ _ _ _ _ _ _ _ _ _))
   | removeBlocking a g =>
     simp only [Backend.applyFront]
     split
     · exact FRel.refl _
     · exact frel_withLogger s a g _ (fun lgi =>
-        (FRel.ofEq (s := s) (s' := dropName { s with nextFlag := s.nextFlag + 1 } g) rfl rfl rfl rfl rfl).trans
+        (FRel.ofEq (s := s) (s' := dropName { s with nextFlag := s.nextFlag + 1 } g) rfl rfl rfl rfl rfl rfl).trans
           (frel_frontCall _ _ _ _ _ _ _ _ _ _))
   | remove a g =>
     simp only [Backend.applyFront]
@@ -404,9 +408,9 @@ theorem frel_applyFront (s : BSt) (f : FOp) : FRel s (Backend.applyFront s f).1 
     · exact FRel.refl _
     · split
       · rename_i lgi _ _
-        have h1 : FRel s (dropName s g) := FRel.ofEq rfl rfl rfl rfl rfl
+        have h1 : FRel s (dropName s g) := FRel.ofEq rfl rfl rfl rfl rfl rfl
         have h2 := h1.trans (FRel.setLg (dropName s g) lgi (fun l => { l with valid := false }) (fun _ => ⟨rfl, rfl⟩))
-        exact h2.trans (FRel.ofEq rfl rfl rfl rfl rfl)
+        exact h2.trans (FRel.ofEq rfl rfl rfl rfl rfl rfl)
       · exact FRel.refl _
   | create a g sl =>
     simp only [Backend.applyFront]
@@ -415,8 +419,8 @@ theorem frel_applyFront (s : BSt) (f : FOp) : FRel s (Backend.applyFront s f).1 
     · split
       · split
         · exact FRel.refl _
-        · exact FRel.ofEq rfl rfl rfl rfl rfl
-      · refine ⟨⟨[], rfl, fun _ h => by cases h⟩, ?_, rfl, fun _ h => h, fun _ => rfl⟩
+        · exact FRel.ofEq rfl rfl rfl rfl rfl rfl
+      · refine ⟨rfl, ⟨[], rfl, fun _ h => by cases h⟩, ?_, rfl, rfl, fun _ => rfl⟩
         intro i sid he hs
         have hi : i < s.lgs.length := by
           apply Classical.byContradiction; intro hn
@@ -434,11 +438,11 @@ theorem frel_applyFront (s : BSt) (f : FOp) : FRel s (Backend.applyFront s f).1 
   | setSinkLevel sid lvl =>
     simp only [Backend.applyFront]
     split
-    · exact FRel.ofEq rfl rfl rfl rfl rfl
+    · exact FRel.ofEq rfl rfl rfl rfl rfl rfl
     · exact FRel.refl _
   | dropSink sid =>
     simp only [Backend.applyFront]
-    have h1 : FRel s (s.setSink sid (fun k => { k with userRef := false })) := FRel.ofEq rfl rfl rfl rfl rfl
+    have h1 : FRel s (s.setSink sid (fun k => { k with userRef := false })) := FRel.ofEq rfl rfl rfl rfl rfl rfl
     exact h1.trans (frel_reapSinks _ _)
   | query => exact FRel.refl _
 
@@ -459,10 +463,603 @@ theorem frel_runInj (table : List (Nat × Nat × List FOp)) (s : BSt) (site : Na
   simp only
   generalize ((s.siteCnt.find? (·.1 = site)).map (·.2)).getD 0 + 1 = k
   split
-  · exact FRel.ofEq rfl rfl rfl rfl rfl
-  · refine FRel.trans (b := { s with siteCnt := (site, k) :: s.siteCnt.filter (·.1 ≠ site) }) (FRel.ofEq rfl rfl rfl rfl rfl) ?_
+  · exact FRel.ofEq rfl rfl rfl rfl rfl rfl
+  · refine FRel.trans (b := { s with siteCnt := (site, k) :: s.siteCnt.filter (·.1 ≠ site) }) (FRel.ofEq rfl rfl rfl rfl rfl rfl) ?_
     exact frel_foldFront _ (fun f => decide (site = 9) && f.needsManagerLock)
         (fun s f => Ev.inj site k f.show (if (decide (site = 9) && f.needsManagerLock) = true then (s, "noop")
           else Backend.applyFront s f).2) (fun _ _ => rfl) _
+
+/-! ### the backend -/
+
+theorem isWr_uses {sid : Nat} {e : Ev} (h : isWr sid e = true) : PC.usesSink sid e = true := by
+  cases e <;> simp_all [isWr, PC.usesSink]
+
+/-- the events of one processed event other than a Flush: writes go to sinks of the statement's logger only -/
+theorem processEvent_writes (s : BSt) (st : Stmt)
+    (hring : ∀ r, (s.lgOf st.lg).bt = some r → ∀ x ∈ r.items, x.lg = st.lg) (hk : ∀ f, st.kind ≠ .flush f) :
+    ∃ evs, (processEvent s st).1.log = evs ++ s.log ∧
+      ∀ e ∈ evs, ∀ sid, isWr sid e = true → sid ∈ (s.lgOf st.lg).sinks := by
+  have hdis : ∃ evs, (dispatch s st).1.log = evs ++ s.log ∧
+      ∀ e ∈ evs, ∀ sid, isWr sid e = true → sid ∈ (s.lgOf st.lg).sinks := by
+    obtain ⟨e1, o1, on1⟩ := PC.dispatch_out s st
+    exact ⟨e1, o1.log, fun e he sid hw => (on1 e he).1 sid (isWr_uses hw)⟩
+  have hrep : ∀ X : BSt, X.lgs = s.lgs → ∃ evs, (replayRing X st.lg).1.log = evs ++ X.log ∧
+      ∀ e ∈ evs, ∀ sid, isWr sid e = true → sid ∈ (s.lgOf st.lg).sinks := by
+    intro X hX
+    have hlg : X.lgOf st.lg = s.lgOf st.lg := PA.lgOf_of_lgs hX st.lg
+    obtain ⟨e2, o2, on2⟩ := PC.replayRing_out X st.lg (by rw [hlg]; exact hring)
+    exact ⟨e2, o2.log, fun e he sid hw => by rw [← hlg]; exact (on2 e he).1 sid (isWr_uses hw)⟩
+  unfold processEvent
+  split
+  · split
+    · simp only
+      obtain ⟨e1, l1, w1⟩ := hdis
+      split
+      · exact ⟨e1, l1, w1⟩
+      · split
+        · obtain ⟨e2, l2, w2⟩ := hrep (dispatch s st).1 (PA.writeToSinks_lgs st _ s)
+          refine ⟨e2 ++ e1, by rw [l2, l1, List.append_assoc], fun e he => ?_⟩
+          rcases List.mem_append.mp he with h | h
+          · exact w2 e h
+          · exact w1 e h
+        · exact ⟨e1, l1, w1⟩
+    · split
+      · exact ⟨[], rfl, fun _ h => by cases h⟩
+      · exact ⟨[], rfl, fun _ h => by cases h⟩
+  · exact ⟨[], rfl, fun _ h => by cases h⟩
+  · exact hrep s rfl
+  · rename_i f hf; exact absurd hf (hk f)
+  · exact ⟨[], rfl, fun _ h => by cases h⟩
+
+variable {inj : BSt → Nat → BSt}
+
+/-! ### backend functions that emit nothing but neutral events and pop nothing -/
+
+theorem frel_fold {α} (F : BSt → α → BSt) (l : List α) (s : BSt) (hF : ∀ s x, FRel s (F s x)) : FRel s (l.foldl F s) := by
+  induction l generalizing s with
+  | nil => exact FRel.refl _
+  | cons x xs ih => rw [List.foldl_cons]; exact (hF s x).trans (ih _)
+
+theorem frel_fold_pair {α β} (F : BSt × β → α → BSt × β) (l : List α) (acc : BSt × β)
+    (hF : ∀ acc x, FRel acc.1 (F acc x).1) : FRel acc.1 (l.foldl F acc).1 := by
+  induction l generalizing acc with
+  | nil => exact FRel.refl _
+  | cons x xs ih => rw [List.foldl_cons]; exact (hF acc x).trans (ih _)
+
+theorem frel_refresh (s : BSt) : FRel s (refreshCache s) := by
+  unfold refreshCache; split
+  · exact FRel.ofEq rfl rfl rfl rfl rfl rfl
+  · exact FRel.refl _
+
+theorem frel_ctxEmpty (s : BSt) (i : Nat) : FRel s (ctxEmpty s i).1 := by
+  unfold ctxEmpty; exact FRel.setTh s i _ (fun _ => rfl)
+
+theorem frel_allEmpty (s : BSt) : FRel s (Backend.allEmpty s).1 := by
+  unfold Backend.allEmpty
+  exact (frel_refresh s).trans (frel_fold_pair _ _ (refreshCache s, true) (fun acc x => frel_ctxEmpty acc.1 x))
+
+theorem frel_hpStep (acc : BSt × Bool) (i : Nat) : FRel acc.1 (hpStep acc i).1 := by
+  unfold hpStep
+  split
+  · exact FRel.refl _
+  · split
+    · exact FRel.setTh _ _ _ (fun _ => rfl)
+    · exact FRel.refl _
+
+theorem frel_hasPending (s : BSt) : FRel s (Backend.hasPending s).1 := by
+  rw [hasPending_eq]
+  exact (frel_refresh s).trans (frel_fold_pair _ _ (refreshCache s, false) frel_hpStep)
+
+theorem frel_findFirst (s : BSt) (l : List Nat) : FRel s (cleanupContexts.go.findFirst s l).1 := by
+  induction l generalizing s with
+  | nil => exact FRel.refl _
+  | cons x xs ih =>
+    unfold cleanupContexts.go.findFirst
+    split
+    · exact ih s
+    · simp only
+      split
+      · exact frel_ctxEmpty s x
+      · exact (frel_ctxEmpty s x).trans (ih _)
+
+theorem frel_setTh_of (s S : BSt) (i : Nat) (g : Th → Th) (h0 : S.cfg = s.cfg) (h1 : S.log = s.log) (h2 : S.lgs = s.lgs)
+    (h3 : S.flagLog = s.flagLog) (h4 : S.flags = s.flags) (h5 : S.ths = s.ths) (hg : ∀ t, (g t).popped = t.popped) :
+    FRel s (S.setTh i g) := (FRel.ofEq h0 h1 h2 h3 h4 h5).trans (FRel.setTh S i g hg)
+
+theorem frel_cleanupGo (fuel : Nat) (s : BSt) : FRel s (cleanupContexts.go fuel s) := by
+  induction fuel generalizing s with
+  | zero => exact FRel.refl _
+  | succ n ih =>
+    unfold cleanupContexts.go
+    have f1 := frel_findFirst s s.cache
+    split
+    · rename_i s1 heq; rw [heq] at f1; exact f1
+    · rename_i s1 i heq; rw [heq] at f1
+      refine f1.trans (FRel.trans ?_ (ih _))
+      apply frel_setTh_of
+      · rfl
+      · rfl
+      · rfl
+      · rfl
+      · rfl
+      · rfl
+      · intro t; rfl
+
+theorem frel_cleanupContexts (s : BSt) : FRel s (Backend.cleanupContexts s) := by
+  unfold Backend.cleanupContexts
+  split
+  · exact FRel.refl _
+  · exact frel_cleanupGo _ _
+
+theorem frel_checkFailures (hrel : ∀ s k, FRel s (inj s k)) (s : BSt) : FRel s (Backend.checkFailures inj s) := by
+  unfold Backend.checkFailures
+  apply frel_fold
+  intro b i
+  simp only
+  split
+  · refine FRel.trans ?_ (hrel _ 8)
+    refine (FRel.setTh b i (fun t => { t with fail := 0 }) (fun _ => rfl)).trans ?_
+    refine FRel.trans (b := (b.setTh i (fun t => { t with fail := 0 })).emit (.notify
+      (if b.cfg.dropping then s!"n:dropped:{(b.th i).fail}:a{(b.th i).actor}" else s!"n:blocked:{(b.th i).fail}:a{(b.th i).actor}")))
+      (FRel.emit _ _ rfl) ?_
+    exact FRel.ofEq rfl rfl rfl rfl rfl rfl
+  · exact FRel.refl _
+
+theorem frel_rqPrep (s : BSt) (i : Nat) : FRel s (rqPrep s i) := FRel.setTh s i _ (fun _ => rfl)
+theorem frel_rqCommit (s : BSt) (i : Nat) : FRel s (rqCommit s i) := FRel.setTh s i _ (fun _ => rfl)
+theorem frel_rqFin (s : BSt) (i total : Nat) : FRel s (rqFin s i total) := by
+  unfold rqFin; split
+  · exact frel_rqCommit s i
+  · exact FRel.refl _
+theorem frel_rqDecode (s : BSt) (st : Stmt) : FRel s (rqDecode s st) := by
+  unfold rqDecode; split
+  · exact FRel.ofEq rfl rfl rfl rfl rfl rfl
+  · exact FRel.refl _
+theorem frel_rqMove (s : BSt) (i : Nat) (st : Stmt) (rest : List Stmt) : FRel s (rqMove s i st rest) := by
+  unfold PB.rqMove
+  exact ((frel_rqPrep s i).trans (frel_rqDecode _ st)).trans (FRel.setTh _ i _ (fun _ => rfl))
+
+theorem frel_readQueue (hrel : ∀ s k, FRel s (inj s k)) (tsNow : Option Nat) (i : Nat) (fuel : Nat) :
+    ∀ (total : Nat) (s : BSt), FRel s (Backend.readQueue inj tsNow i fuel total s) := by
+  induction fuel with
+  | zero => intro total s; exact FRel.refl _
+  | succ n ih =>
+    intro total s
+    rw [readQueue_succ]
+    have hfin := fun tot => (frel_rqPrep s i).trans (frel_rqFin (rqPrep s i) i tot)
+    split
+    · exact hfin total
+    · split
+      · exact hfin total
+      · rename_i st rest _
+        split
+        · exact hfin total
+        · have h3 := (frel_rqMove s i st rest).trans (hrel _ 3)
+          split
+          · exact h3.trans (ih _ _)
+          · exact h3.trans (frel_rqCommit _ i)
+
+theorem frel_populate (hrel : ∀ s k, FRel s (inj s k)) (s : BSt) : FRel s (Backend.populate inj s).1 := by
+  rw [populate_eq]
+  have fa : FRel s (popA s) := by
+    unfold popA; split
+    · exact FRel.refl _
+    · exact frel_refresh s
+  have fb : FRel (popA s) (popB inj s) := by
+    unfold popB; split
+    · exact FRel.refl _
+    · exact hrel _ 7
+  have fc : FRel (popB inj s) (popC inj s) := by
+    unfold popC; split
+    · exact (hrel _ 1).trans (frel_refresh _)
+    · exact hrel _ 1
+  refine ((fa.trans fb).trans fc).trans ?_
+  refine frel_fold_pair _ _ (popC inj s, 0) ?_
+  intro acc x
+  unfold popStep
+  exact (hrel _ 2).trans (frel_readQueue hrel _ x _ _ _)
+
+theorem frel_reapSinksInj (hrel : ∀ s k, FRel s (inj s k)) (l : List Nat) (s : BSt) : FRel s (reapSinksInj inj s l) := by
+  unfold Backend.reapSinksInj
+  apply frel_fold
+  intro b sid
+  split
+  · refine FRel.trans ?_ (hrel _ 9)
+    refine FRel.trans (b := b.setSink sid (fun k => { k with alive := false })) (FRel.ofEq rfl rfl rfl rfl rfl rfl) ?_
+    exact FRel.emit _ _ rfl
+  · exact FRel.refl _
+
+/-! ### flushing -/
+
+/-- only sinks, the event lists change -/
+def SOL (s s' : BSt) : Prop := ∃ a c d, s' = { s with sinks := a, out := c, log := d }
+theorem SOL.refl (s : BSt) : SOL s s := ⟨s.sinks, s.out, s.log, rfl⟩
+theorem SOL.trans {a b c : BSt} (h1 : SOL a b) (h2 : SOL b c) : SOL a c := by
+  obtain ⟨x1, x3, x4, rfl⟩ := h1
+  obtain ⟨y1, y3, y4, rfl⟩ := h2
+  exact ⟨y1, y3, y4, rfl⟩
+theorem SOL.emit (s : BSt) (e : Ev) : SOL s (s.emit e) := ⟨s.sinks, e :: s.out, e :: s.log, rfl⟩
+theorem SOL.setSink (s : BSt) (i : Nat) (f : Sink → Sink) : SOL s (s.setSink i f) := ⟨_, s.out, s.log, rfl⟩
+
+theorem sol_flushSinks (s : BSt) : SOL s (flushSinks s) := by
+  unfold flushSinks
+  generalize activeSinks s = l
+  induction l generalizing s with
+  | nil => exact SOL.refl _
+  | cons x xs ih =>
+    rw [List.foldl_cons]
+    refine SOL.trans ?_ (ih _)
+    simp only
+    split
+    · exact ((SOL.setSink _ _ _).trans (SOL.emit _ _)).trans (SOL.emit _ _)
+    · exact (SOL.setSink _ _ _).trans (SOL.emit _ _)
+
+theorem mem_activeSinks_of {s : BSt} (hF : s.cfg.flushInvalidatedLoggers = true) {i sid : Nat}
+    (he : (s.lgOf i).erased = false) (hs : sid ∈ (s.lgOf i).sinks) : sid ∈ activeSinks s := by
+  have hi : i < s.lgs.length := by
+    apply Classical.byContradiction; intro hn
+    have : s.lgOf i = default := by
+      simp only [BSt.lgOf, List.getD_eq_getElem?_getD, List.getElem?_eq_none (by omega : s.lgs.length ≤ i)]; rfl
+    rw [this] at hs; cases hs
+  have hlg : s.lgOf i = s.lgs[i] := by
+    simp only [BSt.lgOf, List.getD_eq_getElem?_getD, List.getElem?_eq_getElem hi, Option.getD_some]
+  unfold activeSinks
+  simp only
+  rw [List.mem_eraseDups, List.mem_flatMap]
+  refine ⟨s.lgs[i], ?_, by rw [← hlg]; exact hs⟩
+  rw [PC.mem_insSorted, List.mem_filter]
+  refine ⟨List.getElem_mem hi, ?_⟩
+  rw [← hlg, he, hF]; simp
+
+theorem CI.flushSinks {fz : Bool} {s : BSt} (h : CI fz s) : CI true (Backend.flushSinks s) := by
+  obtain ⟨blk, e1, e2, e3⟩ := flushSinks_log s
+  obtain ⟨a, c, d, hsh⟩ := sol_flushSinks s
+  have hcfg : (Backend.flushSinks s).cfg = s.cfg := by rw [hsh]
+  have hlgs : (Backend.flushSinks s).lgs = s.lgs := by rw [hsh]
+  have hlgOf : ∀ i, (Backend.flushSinks s).lgOf i = s.lgOf i := fun i => by simp only [BSt.lgOf, hlgs]
+  have hnw : ∀ e ∈ blk, ∀ sid, isWr sid e = false := by
+    intro e he sid
+    rcases e3 e he with ⟨k, rfl | rfl⟩ | rfl <;> rfl
+  have hall : ∀ sid, unfl sid (Backend.flushSinks s).log = false := by
+    intro sid
+    rw [e1]
+    by_cases hu : unfl sid s.log = true
+    · obtain ⟨i, he, hs⟩ := h.act sid hu
+      have hact := mem_activeSinks_of h.cfgF he hs
+      apply unfl_append_flushed sid blk _ (fun e he' => hnw e he' sid)
+      rcases e2 sid hact with hm | hm
+      · exact ⟨_, hm, by simp [isFl]⟩
+      · exact ⟨_, hm, by simp [isFl]⟩
+    · cases hx : unfl sid (blk ++ s.log) with
+      | false => rfl
+      | true =>
+        rcases unfl_append_true sid blk _ hx with h1 | ⟨e, he, hw⟩
+        · exact absurd h1 hu
+        · rw [hnw e he sid] at hw; cases hw
+  refine h.grow hcfg blk e1 (by rw [hsh]) (by rw [hsh]) (fun i => by rw [hsh]; rfl)
+    (fun sid hs => by rw [hall sid] at hs; cases hs) (fun _ sid => hall sid) ?_
+  intro fn _ i pre st more _ _ r _ _ sid
+  unfold PA.wcount
+  rw [List.countP_eq_zero]
+  intro e he
+  have := hnw e he sid
+  cases e <;> simp_all [PA.ordWrite, isWr]
+
+/-- a logger is erased while no sink is unflushed -/
+theorem CI.erase {s : BSt} (h : CI true s) (i : Nat) : CI true (s.setLg i (fun l => { l with erased := true })) :=
+  h.grow rfl [] rfl rfl rfl (fun _ => rfl)
+    (fun sid hs => by have := h.fzc rfl sid; rw [show (s.setLg i _).log = s.log from rfl, this] at hs; cases hs)
+    (fun _ sid => h.fzc rfl sid)
+    (fun _ _ _ _ _ _ _ _ _ _ _ _ => rfl)
+
+/-- a flag is raised while no sink is unflushed -/
+theorem CI.raise {s : BSt} (h : CI true s) (f : Nat) (rf : List (Nat × Nat)) :
+    CI true { s with flags := f :: s.flags, flagLog := (f, s.log.length) :: s.flagLog, removalFlags := rf } := by
+  refine ⟨h.cfgF, h.act, h.fzc, ?_, ?_, ?_, ?_⟩
+  · intro fn hfn
+    rcases List.mem_cons.mp hfn with rfl | hfn
+    · refine ⟨Nat.le_refl _, fun sid => ?_⟩
+      show unfl sid (s.log.drop (s.log.length - s.log.length)) = false
+      rw [Nat.sub_self, List.drop_zero]; exact h.fzc rfl sid
+    · exact h.fl1 fn hfn
+  · intro fn hfn
+    rcases List.mem_cons.mp hfn with rfl | hfn
+    · exact List.mem_cons_self ..
+    · exact List.mem_cons_of_mem _ (h.fl2 fn hfn)
+  · intro g hg
+    rcases List.mem_cons.mp hg with rfl | hg
+    · exact ⟨s.log.length, List.mem_cons_self ..⟩
+    · obtain ⟨n, hn⟩ := h.fl3 g hg; exact ⟨n, List.mem_cons_of_mem _ hn⟩
+  · intro fn hfn i pre st more hp hk r hr ho sid
+    rcases List.mem_cons.mp hfn with rfl | hfn
+    · show PA.wcount (s.log.take (s.log.length - s.log.length)) sid r.id = 0
+      rw [Nat.sub_self, List.take_zero]; rfl
+    · exact h.wr fn hfn i pre st more hp hk r hr ho sid
+
+theorem ci_fold {α β} (P : β → Prop) (F : β → α → β) (l : List α) (s : β) (h0 : P s) (hF : ∀ s x, P s → P (F s x)) :
+    P (l.foldl F s) := by
+  induction l generalizing s with
+  | nil => exact h0
+  | cons x xs ih => rw [List.foldl_cons]; exact ih _ (hF s x h0)
+
+theorem CI.cleanupLoggers (hrel : ∀ s k, FRel s (inj s k)) {s : BSt} (h : CI true s) :
+    CI true (Backend.cleanupLoggers inj s) := by
+  unfold Backend.cleanupLoggers
+  split
+  · exact h
+  · simp only
+    apply ci_fold (fun x => CI true x)
+    · have h0 : CI true { s with hasInvalidLoggers := false } := h.frel (FRel.ofEq rfl rfl rfl rfl rfl rfl)
+      refine ci_fold (fun acc : BSt × List Nat => CI true acc.1) _ _ ({ s with hasInvalidLoggers := false }, []) h0 ?_
+      intro acc i hacc
+      split
+      · exact hacc
+      · split
+        · have h1 : CI true (Backend.allEmpty acc.1).1 := hacc.frel (frel_allEmpty _)
+          exact (h1.erase i).frel (frel_reapSinksInj hrel _ _)
+        · exact (hacc.frel (frel_allEmpty _)).frel (FRel.ofEq rfl rfl rfl rfl rfl rfl)
+    · intro b a hb
+      split
+      · exact hb.raise _ _
+      · exact hb
+
+/-! ### popping -/
+
+/-- the flag of a Flush statement still in a transit buffer has not been raised -/
+theorem FI.buf_flag_not_raised {pf : List Nat} {s : BSt} (h : FI none pf s) {j : Nat} {x : Stmt} {f : Nat}
+    (hx : x ∈ (s.th j).buf) (hk : x.kind = .flush f) : f ∉ s.flags := by
+  intro hf
+  have hfo : flagOf x = some f := by simp [flagOf, hk, flagOfK]
+  have hxa : x ∈ (s.th j).accepted := by
+    rw [h.cons j]; exact List.mem_append_left _ (List.mem_append_right _ hx)
+  rcases h.flg f hf with ⟨i, st', hp, hk'⟩ | ⟨i, st', ha, hk'⟩
+  · have hfo' : flagOf st' = some f := by simp [flagOf, hk', flagOfK]
+    by_cases hij : i = j
+    · subst hij
+      have hn := h.accNodup i
+      rw [h.cons i, List.append_assoc, flagsIn_append] at hn
+      have hd := (List.nodup_append.mp hn).2.2
+      refine hd f (mem_flagsIn.mpr ⟨st', hp, hfo'⟩) f ?_ rfl
+      rw [flagsIn_append]
+      exact List.mem_append_left _ (mem_flagsIn.mpr ⟨x, hx, hfo⟩)
+    · have hst'a : st' ∈ (s.th i).accepted := by
+        rw [h.cons i]; exact List.mem_append_left _ (List.mem_append_left _ hp)
+      exact h.accDisj i j hij f (mem_flagsIn.mpr ⟨st', hst'a, hfo'⟩) (mem_flagsIn.mpr ⟨x, hxa, hfo⟩)
+  · have hfo' : flagOf st' = some f := by simp [flagOf, hk', flagOfK]
+    by_cases hij : i = j
+    · subst hij
+      have := filterMap_nodup_inj flagOf _ (h.accNodup i) st' x f ha hxa hfo' hfo
+      rw [this, hk] at hk'; cases hk'
+    · exact h.accDisj i j hij f (mem_flagsIn.mpr ⟨st', ha, hfo'⟩) (mem_flagsIn.mpr ⟨x, hxa, hfo⟩)
+
+theorem append_singleton_split {α} {l pre more : List α} {x st : α} (h : l ++ [x] = pre ++ st :: more) :
+    (∃ more', l = pre ++ st :: more' ∧ more = more' ++ [x]) ∨ (l = pre ∧ st = x ∧ more = []) := by
+  rcases List.append_eq_append_iff.mp h with ⟨a', h1, h2⟩ | ⟨c', h1, h2⟩
+  · -- pre = l ++ a', [x] = a' ++ st :: more
+    cases a' with
+    | nil =>
+      simp only [List.nil_append, List.cons.injEq] at h2
+      right; exact ⟨by simpa using h1.symm, h2.1.symm, h2.2.symm⟩
+    | cons a as =>
+      simp only [List.cons_append, List.cons.injEq] at h2
+      have := h2.2
+      cases as <;> simp at this
+  · -- l = pre ++ c', st :: more = c' ++ [x]
+    cases c' with
+    | nil =>
+      simp only [List.nil_append, List.cons.injEq] at h2
+      right; exact ⟨by simpa using h1, h2.1, h2.2⟩
+    | cons c cs =>
+      simp only [List.cons_append, List.cons.injEq] at h2
+      left; exact ⟨cs, by rw [h1, h2.1], h2.2⟩
+
+/-- the pop itself (the event's output is already in the log) -/
+theorem CI.popTh {fz : Bool} {s : BSt} (h : CI fz s) (j : Nat) (x : Stmt) (rest : List Stmt)
+    (hx : ∀ fn ∈ s.flagLog, x.kind ≠ .flush fn.1) : CI fz (plPop s j x rest) := by
+  unfold plPop
+  refine ⟨h.cfgF, h.act, h.fzc, h.fl1, h.fl2, h.fl3, ?_⟩
+  intro fn hfn i pre st more hp hk r hr ho sid
+  have hth : ({ s.setTh j (fun t => { t with buf := rest, popped := t.popped ++ [x] }) with popLog := x :: s.popLog } : BSt).th i =
+      (s.setTh j (fun t => { t with buf := rest, popped := t.popped ++ [x] })).th i := rfl
+  rw [hth] at hp
+  rcases th_setTh_cases s j i (fun t => { t with buf := rest, popped := t.popped ++ [x] }) with h1 | ⟨rfl, _, h1⟩
+  · rw [h1] at hp; exact h.wr fn hfn i pre st more hp hk r hr ho sid
+  · rw [h1] at hp
+    rcases append_singleton_split hp with ⟨more', e1, _⟩ | ⟨_, e2, _⟩
+    · exact h.wr fn hfn i pre st more' e1 hk r hr ho sid
+    · rw [e2] at hk; exact absurd hk (hx fn hfn)
+
+/-- the output of a processed event other than a Flush -/
+theorem CI.processEvent {fz : Bool} {s : BSt} (h : CI fz s) (x : Stmt) (hk : ∀ f, x.kind ≠ .flush f)
+    (hlive : (s.lgOf x.lg).erased = false)
+    (hring : ∀ r, (s.lgOf x.lg).bt = some r → ∀ y ∈ r.items, y.lg = x.lg) (hro : PA.RingOK s)
+    (hpu : PA.isOrd x = true → ∀ fn ∈ s.flagLog, ∀ i pre st more, (s.th i).popped = pre ++ st :: more →
+      st.kind = .flush fn.1 → ∀ r ∈ pre, PA.isOrd r = true → r.id ≠ x.id) :
+    CI false (Backend.processEvent s x).1 := by
+  obtain ⟨evs, e1, e2⟩ := processEvent_writes s x hring hk
+  obtain ⟨a, b, c, d, hsh⟩ := slol_processEvent s x
+  have hkeep := PC.processEvent_lgKeep s x
+  refine h.grow (by rw [hsh]) evs e1 (by rw [hsh]) (by rw [hsh]) (fun i => by rw [hsh]; rfl) ?_
+    (fun hf => by cases hf) ?_
+  · intro sid hs
+    rw [e1] at hs
+    rcases unfl_append_true sid evs _ hs with h1 | ⟨e, he, hw⟩
+    · obtain ⟨i, he', hs'⟩ := h.act sid h1
+      exact ⟨i, by rw [(hkeep.2.2.2.2 i).2.2.1]; exact he', by rw [(hkeep.2.2.2.2 i).2.2.2]; exact hs'⟩
+    · exact ⟨x.lg, by rw [(hkeep.2.2.2.2 x.lg).2.2.1]; exact hlive,
+        by rw [(hkeep.2.2.2.2 x.lg).2.2.2]; exact e2 e he sid hw⟩
+  · intro fn hfn i pre st more hp hkf r hr ho sid
+    have hb := (PA.processEvent_w hro x sid r.id).1
+    rw [e1, PA.wcount_append] at hb
+    have hne : ¬ (PA.isOrd x = true ∧ x.id = r.id) := by
+      rintro ⟨h1, h2⟩
+      exact hpu h1 fn hfn i pre st more hp hkf r hr ho h2.symm
+    rw [if_neg hne] at hb
+    omega
+
+/-- what the pop needs from the invariants of the other bundles, in the state it starts from -/
+structure Ext (s : BSt) : Prop where
+  live : ∀ j x rest, (s.th j).buf = x :: rest → (s.lgOf x.lg).erased = false
+  ring : ∀ i r, (s.lgOf i).bt = some r → ∀ y ∈ r.items, y.lg = i
+  ringOK : PA.RingOK s
+  puniq : ∀ j x rest, (s.th j).buf = x :: rest → PA.isOrd x = true → ∀ r ∈ s.popLog, PA.isOrd r = true → r.id ≠ x.id
+  fi : ∃ pf, FI none pf s
+
+theorem CI.processLowest (hrel : ∀ s k, FRel s (inj s k)) {fz : Bool} {s : BSt} (h : CI fz s) (hx : Ext s) :
+    CI false (Backend.processLowest inj s).1 := by
+  rw [processLowest_eq]
+  split
+  · exact h.weaken
+  · rename_i j _
+    split
+    · exact h.weaken
+    · rename_i x rest hb
+      obtain ⟨pf, hfi⟩ := hx.fi
+      split
+      · rename_i f hfl
+        have hk := processEvent_flag s x f hfl
+        have hpe := processEvent_flush s x f hk
+        have hnote : plNote (Backend.processEvent s x) = Backend.flushSinks s := by rw [hpe]; rfl
+        rw [hnote]
+        have h1 : CI true (Backend.flushSinks s) := h.flushSinks
+        obtain ⟨a, c, d, hsh⟩ := sol_flushSinks s
+        have hnot : ∀ fn ∈ (Backend.flushSinks s).flagLog, x.kind ≠ .flush fn.1 := by
+          intro fn hfn hkk
+          rw [hk] at hkk
+          simp only [Kind.flush.injEq] at hkk
+          have hfl2 : fn.1 ∈ (Backend.flushSinks s).flags := h1.fl2 fn hfn
+          rw [hsh] at hfl2
+          exact FI.buf_flag_not_raised hfi (by rw [hb]; exact List.mem_cons_self ..) hk (by rw [hkk]; exact hfl2)
+        have h2 : CI true (plPop (Backend.flushSinks s) j x rest) := h1.popTh j x rest hnot
+        unfold plFlag plPre
+        have h3 : CI true (Backend.cleanupContexts (if (plPop (Backend.flushSinks s) j x rest).cfg.reportBeforeFlushCleanup = true then
+            Backend.checkFailures inj (plPop (Backend.flushSinks s) j x rest) else plPop (Backend.flushSinks s) j x rest)) := by
+          refine CI.frel ?_ (frel_cleanupContexts _)
+          split
+          · exact h2.frel (frel_checkFailures hrel _)
+          · exact h2
+        exact (h3.raise f _).weaken
+      · rename_i hnone
+        have hk : ∀ f, x.kind ≠ .flush f := by
+          intro f hf
+          rw [processEvent_flush s x f hf] at hnone; cases hnone
+        have h1 : CI false (Backend.processEvent s x).1 := by
+          refine h.processEvent x hk (hx.live j x rest hb) (hx.ring x.lg) hx.ringOK ?_
+          intro ho fn hfn i pre st more hp hkf r hr hor
+          refine hx.puniq j x rest hb ho r ?_ hor
+          exact hfi.plog i r (by rw [hp]; exact List.mem_append_left _ hr)
+        have h2 : CI false (plNote (Backend.processEvent s x)) := by
+          unfold plNote; split
+          · exact h1.frel (FRel.emit _ _ rfl)
+          · exact h1
+        exact h2.popTh j x rest (fun fn _ => hk fn.1)
+
+/-! ### the invariants of the other bundles, along a poll -/
+
+/-- prover bundle A: conservation / queue coupling, unique ids, bounded writes, pop-history merge -/
+def PAI (s : BSt) : Prop := (PA.InvA s ∧ PA.InvB s) ∧ (PA.InvW s ∧ PA.InvP s)
+
+theorem PAI.closed : PA.Closed PAI := (PA.InvA.closed.and PA.InvB.closed).and (PA.InvW.closed.and PA.InvP.closed)
+
+theorem PAI.inv {s : BSt} (h : PAI s) : PA.Inv s := ⟨h.1.1, h.1.2, h.2.1, h.2.2⟩
+
+/-- ordinary statement ids are unique in the pop history -/
+theorem PA_popLog_uniq {s : BSt} (h : PA.Inv s) (id : Nat) :
+    (s.popLog.filter (fun x => PA.isOrd x && x.id == id)).length ≤ 1 := by
+  rw [← List.countP_eq_length_filter]
+  have h1 := h.p (fun x => PA.isOrd x && x.id == id)
+  have h2 := PA.cntP_le_cA h.a (fun x => PA.isOrd x && x.id == id)
+  have h3 := PA.cA_mono s (fun x => PA.isOrd x && x.id == id) (PA.logq id) (fun x hx => by
+    simp only [PA.isOrd, Bool.and_eq_true, beq_iff_eq] at hx
+    simp [PA.logq, hx.1.1, hx.2])
+  have h4 : PA.cA s (PA.logq id) ≤ 1 := by
+    rw [← PA.cntA_eq_cA]; have := h.b.uniq id; unfold PA.tot at this; omega
+  omega
+
+/-- everything the pop needs, bundled: the invariants of bundles A and C and the flush invariant -/
+structure XS (s : BSt) : Prop where
+  a : PAI s
+  c : PC.FInv s
+  f : ∃ pf, FI none pf s
+
+theorem XS.ext {s : BSt} (h : XS s) : Ext s where
+  live := fun j x rest hb =>
+    h.c.1.2.1.live j (PC.buf_head_lt hb) x (Or.inr (by rw [hb]; exact List.mem_cons_self ..))
+  ring := fun i r hbt => by
+    by_cases hi : i < s.lgs.length
+    · exact h.c.2.ring i hi r hbt
+    · simp only [BSt.lgOf, List.getD_eq_getElem?_getD, List.getElem?_eq_none (by omega : s.lgs.length ≤ i)] at hbt
+      cases hbt
+  ringOK := h.a.2.1.ring
+  puniq := fun j x rest hb ho r hr hor hid => by
+    have hpost : PA.Inv (PA.popStep s j x rest) :=
+      (PAI.closed.pop s j x rest h.a hb).inv
+    have hlen := PA_popLog_uniq hpost x.id
+    have hpl : (PA.popStep s j x rest).popLog = x :: s.popLog := by
+      unfold PA.popStep
+      simp only
+      obtain ⟨a, b, c, d, hsh⟩ := slol_processEvent s x
+      split <;> simp [hsh, BSt.emit]
+    rw [hpl, List.filter_cons] at hlen
+    have hx : (PA.isOrd x && x.id == x.id) = true := by simp [ho]
+    rw [if_pos hx, List.length_cons] at hlen
+    have : 0 < (s.popLog.filter (fun y => PA.isOrd y && y.id == x.id)).length :=
+      List.length_pos_iff.mpr (by
+        intro he
+        have : r ∈ s.popLog.filter (fun y => PA.isOrd y && y.id == x.id) :=
+          List.mem_filter.mpr ⟨hr, by simp [hor, hid]⟩
+        rw [he] at this; cases this)
+    omega
+  fi := h.f
+
+/-- what is assumed of the injection runner (true of every `runInj table`) -/
+structure InjX (inj : BSt → Nat → BSt) : Prop where
+  a : ∀ s k, PAI s → PAI (inj s k)
+  c : PC.InjOK PC.FInv inj
+  f : InjOK2 inj
+  r : ∀ s k, FRel s (inj s k)
+
+theorem injX_runInj (table : List (Nat × Nat × List FOp)) : InjX (runInj table) :=
+  ⟨fun s k h => PA.runInj_closed PAI.closed table s k h, PC.runInj_ok PC.FInv_closed table, injOK2_runInj table,
+   fun s k => frel_runInj table s k⟩
+
+theorem XS.injStep (hj : InjX inj) {s : BSt} (h : XS s) (k : Nat) : XS (inj s k) :=
+  ⟨hj.a s k h.a, (hj.c s k h.c).1, by obtain ⟨pf, hf⟩ := h.f; exact ⟨pf, hj.f pf s k hf⟩⟩
+
+theorem XS.populate (hj : InjX inj) {s : BSt} (h : XS s) : XS (Backend.populate inj s).1 :=
+  ⟨PA.populate_closed PAI.closed inj hj.a s h.a, PC.populate_ok PC.FInv_closed.toClosedB hj.c s h.c,
+   by obtain ⟨pf, hf⟩ := h.f; exact ⟨pf, hf.populate hj.f⟩⟩
+
+theorem XS.processLowest (hj : InjX inj) {s : BSt} (h : XS s) : XS (Backend.processLowest inj s).1 :=
+  ⟨PA.processLowest_closed PAI.closed inj hj.a s h.a, PC.processLowest_ok PC.FInv_closed.toClosedB hj.c s h.c,
+   by obtain ⟨pf, hf⟩ := h.f; exact ⟨pf, hf.processLowest hj.f⟩⟩
+
+theorem XS.hasPending {s : BSt} (h : XS s) : XS (Backend.hasPending s).1 :=
+  ⟨PA.hasPending_closed PAI.closed.toClosedH s h.a, PC.FInv_closed.hasPending s h.c,
+   by obtain ⟨pf, hf⟩ := h.f; exact ⟨pf, hf.same (same2_hasPending s)⟩⟩
+
+theorem XS.allEmpty {s : BSt} (h : XS s) : XS (Backend.allEmpty s).1 :=
+  ⟨PA.allEmpty_closed PAI.closed.toClosedH s h.a, PC.FInv_closed.allEmpty s h.c,
+   by obtain ⟨pf, hf⟩ := h.f; exact ⟨pf, hf.same (same2_allEmpty s)⟩⟩
+
+theorem XS.flushSinks {s : BSt} (h : XS s) : XS (Backend.flushSinks s) :=
+  ⟨PAI.closed.frame s _ h.a (PA.flushSinks_frame s), PC.FInv_closed.flushSinks s h.c,
+   by obtain ⟨pf, hf⟩ := h.f; exact ⟨pf, hf.frame (slol_flushSinks s).core2⟩⟩
+
+theorem XS.checkFailures (hj : InjX inj) {s : BSt} (h : XS s) : XS (Backend.checkFailures inj s) :=
+  ⟨PA.checkFailures_closed PAI.closed inj hj.a s h.a, PC.checkFailures_ok PC.FInv_closed.toClosedB hj.c s h.c,
+   by obtain ⟨pf, hf⟩ := h.f; exact ⟨pf, hf.checkFailures hj.f⟩⟩
+
+theorem XS.cleanupContexts {s : BSt} (h : XS s) : XS (Backend.cleanupContexts s) :=
+  ⟨PA.cleanupContexts_closed PAI.closed.toClosedH s h.a, PC.FInv_closed.cleanupContexts s h.c,
+   by obtain ⟨pf, hf⟩ := h.f; exact ⟨pf, hf.cleanupContexts⟩⟩
+
+theorem XS.cleanupLoggers (hj : InjX inj) {s : BSt} (h : XS s) : XS (Backend.cleanupLoggers inj s) :=
+  ⟨PA.cleanupLoggers_closed PAI.closed.toClosedH inj hj.a s h.a, PC.cleanupLoggers_ok PC.FInv_closed.toClosedB hj.c s h.c,
+   by obtain ⟨pf, hf⟩ := h.f; exact ⟨pf, hf.cleanupLoggers hj.f⟩⟩
+
+theorem XS.batchLoop (hj : InjX inj) (fuel : Nat) {s : BSt} (h : XS s) : XS (Backend.batchLoop inj fuel s) :=
+  ⟨PA.batchLoop_closed PAI.closed inj hj.a fuel s h.a, PC.batchLoop_ok PC.FInv_closed.toClosedB hj.c fuel s h.c,
+   by obtain ⟨pf, hf⟩ := h.f; exact ⟨pf, FI.batchLoop hj.f fuel s hf⟩⟩
 
 end Backend.PB
